@@ -531,6 +531,7 @@ def load_corpus():
 
 def run(chk):
     chk.trusted_base = common.BASE_TRUST + [
+        "translate/units/meta.py + _stagec.py: check_version, is_thread_stream, loom_name, proc_stream_get_pid, load_appid, load_rank, thread_stream_get_tid, thread_load_metadata, should_enable and the head / the JSON part of one loop iteration of load_cpus are rendered into coq/Gen/Meta_gen.v on every run; parson's look-up API, strcmp and the conversions double<->int are hand-written in coq/Emu/MetaPre.v over the JSON model of coq/Rt/RtMetaDefs.v (numbers are integers; `(int) d` is the identity on |d| < 2^31); clang's AST and the Python printer are trusted",
         "translate/units/_cmp.py + translate/c2gallina.py (clang JSON AST): the comparison part of the C comparators (loom.c by_pid/by_rank/by_phyid, proc.c by_tid, system.c cmp_loom_rank/cmp_loom_id) is translated to Gallina on every run, the statements that fetch the compared integers are pinned as normalised source text, not translated",
         "hand model coq/Emu/MetaDefs.v of system_init/load_cpus/load_appid/load_rank/create_thread/loom_sort/loom_init_end, "
         "validated on every run against ovniemu's exit status, signal, thread.row, cpu.row and the TID rows of thread.prv/cpu.prv",
@@ -544,7 +545,7 @@ def run(chk):
                        "with equal ranks in two processes (invalid MPI metadata) the property fixes no order, only that it depends on the union alone: "
                        "judged by comparing enumerations (C15_union holds unconditionally since the tie-break repair; C15_union_rank_ties_refuted_old is the code before)",
                        "'duplicate TIDs' is read as the same (loom, pid, tid) in two streams"]
-    chk.translate_and_prove(["cmp_meta"])
+    chk.translate_and_prove(["cmp_meta", "version", "meta"])
     build = common.repo_build("hook")
     oracle = None
     try:
